@@ -34,6 +34,10 @@ PROFILES = {
     # mostly character classes with multi-byte members, used through closures / choices so that every class is tried on many
     # characters (members, non-members, neighbours in the encoding)
     "charclass": dict(p_unicode=0.75, w_char=8, w_string=3, w_struct=3, w_unit=0, w_alias=1, w_enum=1, nrules=(3, 6), p_ccheck=0.2, p_lookahead=0.2, p_memo=0.2),
+    # mostly @string rules of every body shape (single literals, case-insensitive keywords, closures, override fields, nested
+    # @string rules), entered from skipping and non-skipping rules
+    "strings": dict(w_string=9, w_struct=4, w_unit=1, w_char=2, w_extern=4, w_alias=1, w_enum=1, p_fields_in_string=0.3, p_noskip=0.5, p_insens=0.3, p_ws_lit=0.1,
+                    p_position=0.35, p_single_lit_string=0.3, nrules=(3, 7)),
     "memo": dict(p_shared_prefix=0.35, p_memo=0.5, p_lookahead=0.2, nrules=(3, 7), p_check=0.3, p_ccheck=0.2, w_extern=4, w_char=2),
     "memofail": dict(p_shared_prefix=0.5, w_alias=3, p_memo=1.0, p_probe=0.7, p_lookahead=0.15, w_extern=1, nrules=(3, 6), p_check=0.35, p_ccheck=0.2, w_char=2),
     "dupfields": dict(nrules=(2, 4), depth=4, small_fieldpool=3, p_multitype=0.85, w_struct=8, w_string=3, w_unit=0, w_alias=0,
@@ -191,6 +195,17 @@ class Gen:
             alt = self.r.choice(rules[j].body.alts)
             piece = self.r.choice([inc, Opt(Cho([Seq([inc])])), Grp(Cho([Seq([inc])])), Clo(Cho([Seq([Lit(","), inc])]))])
             alt.parts.insert(self.r.randint(0, len(alt.parts)), piece)
+        if self.coin(0.5):
+            # a diamond: K is also reached along a second include path (directly from an includer of J, or from another
+            # included body)
+            outer = [r for r in rules.values() if r.name not in (j, k) and any(isinstance(e, Inc) and e.rule == j for e in subexprs(r.body))]
+            if outer:
+                host = self.r.choice(outer)
+                ok_kind = self.kinds.get(host.name) not in ("unit", "string") or self.kinds.get(k) in ("unit", "string")
+                if ok_kind and order.index(host.name) < order.index(k):
+                    alt = self.r.choice(host.body.alts)
+                    inc2 = Inc(k)
+                    alt.parts.append(self.r.choice([inc2, Opt(Cho([Seq([inc2])])), Clo(Cho([Seq([Lit(";"), inc2])]))]))
         if j == k or self.kinds.get(j) is None or self.kinds.get(k) is None or j not in RULE_NAMES and k not in RULE_NAMES:
             return g
         base = k if k in RULE_NAMES else j
@@ -463,6 +478,14 @@ class Gen:
             n = self.r.randint(10, 13)  # wide choice (generated names choice_10 ..)
             return Cho([self.seq(0, mode, consumed) for _ in range(n)])
         alts = [self.seq(depth, mode, consumed) for _ in range(n)]
+        if n >= 2 and self.coin(0.06):
+            # an alternative made of lookaheads only ( !'x' | 'x' 'y' ), optionally with an optional / empty group next to it
+            la = [Neg(self.lit_nonempty() if self.coin(0.6) else self.rng())]
+            if self.coin(0.3):
+                la.append(Opt(Cho([Seq([self.lit_nonempty()])])))
+            if self.coin(0.2):
+                la.insert(0, Neg(self.lit_nonempty()))
+            alts[self.r.randrange(n - 1)] = Seq(la)
         if n >= 2 and self.coin(self.p.get("p_shared_prefix", 0.1)):
             # alternatives that start with the same rule reference: the second one re-enters that rule at the same
             # position (the situation memoization exists for)
@@ -515,6 +538,8 @@ class Gen:
         if x < 0.55:
             return self.ref(mode, consumed)
         if x < 0.65:
+            if self.coin(0.15):
+                return Opt(self.tight_choice(mode, consumed))
             return Opt(self.cho(depth - 1, mode, consumed))
         if x < 0.77:
             return Clo(self.nonnull_cho(depth - 1, mode, consumed), self.coin(0.35))
@@ -544,6 +569,31 @@ class Gen:
         if x < 0.97:
             return self.lit()
         return Eoi()
+
+    def tight_choice(self, mode, consumed, nest=True):
+        """a choice of single items (literal / range / field / optional of one of those / nested group of the same kind) with
+        at most one field name in the whole choice: the form that is expanded in place instead of getting a module"""
+        fname = self.r.choice(self.fieldpool) if mode == "named" and self.coin(0.6) else None
+        if fname and fname not in self.used_fields:
+            self.used_fields.append(fname)
+
+        def item():
+            y = self.r.random()
+            if y < 0.45 or not fname:
+                return self.lit_nonempty() if self.coin(0.7) else self.rng()
+            ts = [t for t in self.targets(consumed, True) if self.kinds.get(t) in ("char", "string", "struct", "unit")] or ["char"]
+            t = self.r.choice(ts)
+            return Ref(t, fname, t != "char" and self.index.get(t, 99) <= self.cur_i)
+        alts = []
+        for _ in range(self.r.randint(2, 3)):
+            y = self.r.random()
+            if y < 0.3:
+                alts.append(Seq([Opt(Cho([Seq([item()])]))]))
+            elif y < 0.42 and nest:
+                alts.append(Seq([Grp(self.tight_choice(mode, consumed, nest=False))]))
+            else:
+                alts.append(Seq([item()]))
+        return Cho(alts)
 
     def nonnull_cho(self, depth, mode, consumed):
         """a choice whose every arm starts with something consuming (closure bodies)"""
@@ -583,7 +633,16 @@ class Gen:
             # "All field declarations will be ignored" in @string rules - including override fields
             ts = self.r.sample(later + ["char"], min(len(later) + 1, self.r.randint(1, 3)))
             return Cho([Seq(([self.lit_nonempty()] if self.coin(0.3) else []) + [Ref(t, "@", False)]) for t in ts])
-        if self.coin(0.12):
+        ext = [nm for nm in later if self.kinds.get(nm) == "extern"]
+        if ext and self.coin(0.3):
+            # the string is (partly) consumed by a user function: the value is still the whole consumed slice
+            e = Ref(self.r.choice(ext))
+            pre = [self.lit_nonempty()] if self.coin(0.5) else []
+            post = [self.lit()] if self.coin(0.4) else []
+            if self.coin(0.3):
+                return Cho([Seq(pre + [e] + post), Seq([Clo(Cho([Seq([self.rng()])]), True)])])
+            return Cho([Seq(pre + [e] + post)])
+        if self.coin(self.p.get("p_single_lit_string", 0.12)):
             # the whole rule is one literal (keyword rules): the value is still the consumed slice of the input -
             # the input's spelling of a case-insensitive literal, including what the rule skipped in front of it
             l = self.lit_nonempty()
